@@ -1254,6 +1254,17 @@ Qed.
 End Cong.
 
 (* ================================================================== Part 5: the passes *)
+Ltac inv_f2 :=
+  repeat match goal with
+  | H : Forall2 _ _ (_ :: _) |- _ => inversion H; clear H; subst
+  | H : Forall2 _ _ [] |- _ => inversion H; clear H; subst
+  end.
+
+Ltac prep_children H n :=
+  destruct n; cbn [children] in H;
+  try match goal with |- context[ESlice _ _ ?f ?t] => destruct f, t; cbn [opt_list app] in H end;
+  inv_f2.
+
 Lemma mp_list_eq f l :
   (fix mp_list (l : list expr) : list expr * acc :=
      match l with
@@ -1354,4 +1365,224 @@ Lemma good_intlike_kint n : good cn n = true -> intlike n = true -> is_lit n = f
 Proof.
   intros G I L. pose proof (good_wt _ _ G) as W. unfold wt_node in W. apply andb_prop in W. destruct W as [W _].
   rewrite I, L in W. apply kint_eq. exact W.
+Qed.
+
+(* ---------------- fold ---------------- *)
+Lemma int_lit_inv x a z : int_lit x = Some (a, z) -> x = EInt a z.
+Proof. destruct x; try discriminate. cbn. intros E; inversion E; reflexivity. Qed.
+Lemma str_lit_inv x s : str_lit x = Some s -> exists a, x = EStr a s.
+Proof. destruct x; try discriminate. cbn. intros E; inversion E; eauto. Qed.
+Lemma all_ints_intlike es zs : all_ints es = Some zs -> forallb intlike es = true.
+Proof.
+  revert zs. induction es as [|x r IH]; intros zs H; [reflexivity|]. cbn [all_ints] in H. destruct x; try discriminate.
+  destruct (all_ints r) eqn:E; [|discriminate]. cbn. eapply IH; reflexivity.
+Qed.
+Lemma all_strs_strlike es ss : all_strs es = Some ss -> forallb strlike es = true.
+Proof.
+  revert ss. induction es as [|x r IH]; intros ss H; [reflexivity|]. cbn [all_strs] in H. destruct x; try discriminate.
+  destruct (all_strs r) eqn:E; [|discriminate]. cbn. eapply IH; reflexivity.
+Qed.
+
+Lemma leaf_esim e' n :
+  as_pair e' = None -> as_pair n = None -> kind_of e' = kind_of n ->
+  (intlike e' = true -> intlike n = true) -> (strlike e' = true -> strlike n = true) ->
+  is_range e' = false -> simple e' = true -> good cn e' = true -> sem_sim e' n -> esim e' n.
+Proof.
+  intros P1 P2 K I S R Si G M. apply esim_nonpair; [exact P1|exact P2|]. constructor; auto.
+  rewrite R. discriminate.
+Qed.
+
+Lemma lit_esim n' n l z' :
+  esim n' n -> good cn n = true -> intlike n = true -> is_lit n = false -> as_pair n = None ->
+  (forall ctx s, ev ctx (EInt (mkAnn l (RKNum KInt)) z') s = ev ctx n' s) ->
+  esim (EInt (mkAnn l (RKNum KInt)) z') n.
+Proof.
+  intros Hdef G I L P Heq. apply esim_nonpair; [reflexivity|exact P|]. constructor.
+  - symmetry. apply good_intlike_kint; assumption.
+  - intros _. exact I.
+  - discriminate.
+  - discriminate.
+  - reflexivity.
+  - intros _. apply good_leaf_int.
+  - eapply esim_sem_eq; eauto.
+Qed.
+
+Lemma fold_local n' n : rel1 n' n -> good cn n = true -> esim (fst (fold_v (f_pow fe) n')) n.
+Proof.
+  intros Hrel G. pose proof (rel1_esim _ _ _ _ _ _ Hrel) as Hdef. destruct Hrel as (cs & -> & H).
+  destruct (good_inv _ _ G) as (_ & Gf & Gc).
+  prep_children H n; cbn [rebuild] in *; cbn [fold_v]; try exact Hdef.
+  - (* unary *)
+    destruct (int_lit x) as [[ai z]|] eqn:L; [|exact Hdef]. apply int_lit_inv in L. subst x.
+    pose proof (good_children_lit_ok _ G eq_refl) as Lc. cbn [children forallb] in Lc. rewrite andb_true_r in Lc.
+    match goal with E : esim (EInt ai z) ?c |- _ =>
+      destruct (lit_child_kint (EUnary a op c) _ _ _ E (Gc _ (or_introl eq_refl)) Lc) as [Ka Kc];
+      pose proof (es_int _ _ _ _ _ _ (proj1 E) eq_refl) as Ic end.
+    destruct op; try exact Hdef; cbn [fst patch_ty set_ann loc_of ann_of]; rewrite Ka.
+    + apply (lit_esim _ _ _ _ Hdef G); [exact Ic|reflexivity|reflexivity|].
+      intros ctx s. pose proof (fold_unary_sound fe cfg env a ai KInt z ctx s Ka eq_refl) as [_ E2].
+      cbn [fold_v int_lit fst patch_ty set_ann loc_of ann_of] in E2. rewrite Ka in E2. exact E2.
+    + apply (lit_esim _ _ _ _ Hdef G); [exact Ic|reflexivity|reflexivity|].
+      intros ctx s. pose proof (fold_unary_sound fe cfg env a ai KInt z ctx s Ka eq_refl) as [E1 _].
+      cbn [fold_v int_lit fst patch_ty set_ann loc_of ann_of] in E1. rewrite Ka in E1. exact E1.
+  - (* binary *)
+    pose proof (good_children_lit_ok _ G eq_refl) as Lc. cbn [children forallb] in Lc. rewrite andb_true_r in Lc.
+    apply andb_prop in Lc. destruct Lc as [Lc1 Lc2].
+    destruct (int_lit x) as [[a1 z1]|] eqn:L1; [destruct (int_lit x0) as [[a2 z2]|] eqn:L2|].
+    + apply int_lit_inv in L1. apply int_lit_inv in L2. subst x x0.
+      match goal with E1 : esim (EInt a1 z1) ?c1, E2 : esim (EInt a2 z2) ?c2 |- _ =>
+        destruct (lit_child_kint (EBinary a op c1 c2) _ _ _ E1 (Gc _ (or_introl eq_refl)) Lc1) as [Ka1 Kc1];
+        destruct (lit_child_kint (EBinary a op c1 c2) _ _ _ E2 (Gc _ (or_intror (or_introl eq_refl))) Lc2) as [Ka2 Kc2];
+        pose proof (es_int _ _ _ _ _ _ (proj1 E1) eq_refl) as I1;
+        pose proof (es_int _ _ _ _ _ _ (proj1 E2) eq_refl) as I2 end.
+      destruct op; try exact Hdef; cbn [fold_int_bin].
+      * (* + *) cbn [fst patch_ty set_ann loc_of ann_of]. rewrite Ka1.
+        apply (lit_esim _ _ _ _ Hdef G); [cbn; rewrite I1, I2; reflexivity|reflexivity|reflexivity|].
+        intros ctx s. pose proof (fold_add_sound fe cfg env a a1 a2 KInt z1 z2 ctx s Ka1 Ka2 eq_refl) as E.
+        cbn [int_redex fold_v int_lit fold_int_bin fst patch_ty set_ann loc_of ann_of] in E. rewrite Ka1 in E. exact E.
+      * (* - *) cbn [fst patch_ty set_ann loc_of ann_of]. rewrite Ka1.
+        apply (lit_esim _ _ _ _ Hdef G); [cbn; rewrite I1, I2; reflexivity|reflexivity|reflexivity|].
+        intros ctx s. pose proof (fold_sub_sound fe cfg env a a1 a2 KInt z1 z2 ctx s Ka1 Ka2 eq_refl) as E.
+        cbn [int_redex fold_v int_lit fold_int_bin fst patch_ty set_ann loc_of ann_of] in E. rewrite Ka1 in E. exact E.
+      * (* * *) cbn [fst patch_ty set_ann loc_of ann_of]. rewrite Ka1.
+        apply (lit_esim _ _ _ _ Hdef G); [cbn; rewrite I1, I2; reflexivity|reflexivity|reflexivity|].
+        intros ctx s. pose proof (fold_mul_sound fe cfg env a a1 a2 KInt z1 z2 ctx s Ka1 Ka2 eq_refl) as E.
+        cbn [int_redex fold_v int_lit fold_int_bin fst patch_ty set_ann loc_of ann_of] in E. rewrite Ka1 in E. exact E.
+      * (* / *) rewrite Ka1, Ka2. cbn [is_float_kind orb].
+        destruct (Z.eqb_spec (iv z2) 0) as [Z0|Z0]; [exact Hdef|].
+        cbn [fst patch_ty set_ann loc_of ann_of].
+        apply (lit_esim _ _ _ _ Hdef G); [cbn; rewrite I1, I2; reflexivity|reflexivity|reflexivity|].
+        intros ctx s. pose proof (fold_div_sound fe cfg env a a1 a2 KInt z1 z2 ctx s Ka1 Ka2 eq_refl) as [_ E].
+        destruct (E Z0) as [_ E']. cbn [int_redex fold_v int_lit fold_int_bin] in E'. rewrite Ka1, Ka2 in E'. cbn [is_float_kind orb] in E'.
+        destruct (Z.eqb_spec (iv z2) 0) as [Z1|_]; [contradiction|]. cbn [fst patch_ty set_ann loc_of ann_of] in E'. exact E'.
+      * (* % *)
+        destruct (Z.eqb_spec (iv z2) 0) as [Z0|Z0]; [exact Hdef|].
+        assert (Kn : akind a = RKNum KInt).
+        { apply (good_intlike_kint _ G); [cbn; rewrite I1, I2; reflexivity|reflexivity]. }
+        cbn [fst patch set_ann ann_of]. destruct a as [la ka]. cbn [akind] in Kn. subst ka.
+        apply (lit_esim _ _ _ _ Hdef G); [cbn; rewrite I1, I2; reflexivity|reflexivity|reflexivity|].
+        intros ctx s. pose proof (fold_mod_sound fe cfg env (mkAnn la (RKNum KInt)) a1 a2 KInt z1 z2 ctx s eq_refl Ka1 Ka2 eq_refl) as [_ E].
+        destruct (E Z0) as [_ E']. cbn [int_redex fold_v int_lit fold_int_bin] in E'.
+        destruct (Z.eqb_spec (iv z2) 0) as [Z1|_]; [contradiction|]. cbn [fst patch set_ann ann_of] in E'. exact E'.
+      * (* ** *) cbn [fst patch set_ann ann_of].
+        apply leaf_esim; try reflexivity; try discriminate.
+        eapply esim_sem_eq; [|exact Hdef]. intros ctx s.
+        pose proof (fold_pow_sound fe cfg env a a1 a2 KInt z1 z2 ctx s Ka1 Ka2 eq_refl) as E.
+        cbn [int_redex fold_v int_lit fold_int_bin fst patch set_ann ann_of] in E. exact E.
+    + (* left literal, right not: only the string rule could fire, and it does not *)
+      destruct op; try exact Hdef. destruct (str_lit x) eqn:S1; [|exact Hdef].
+      apply int_lit_inv in L1. subst x. discriminate.
+    + destruct op; try exact Hdef. destruct (str_lit x) as [s1|] eqn:S1; [|exact Hdef].
+      destruct (str_lit x0) as [s2|] eqn:S2; [|exact Hdef].
+      apply str_lit_inv in S1. apply str_lit_inv in S2. destruct S1 as (a1 & ->). destruct S2 as (a2 & ->).
+      cbn [fst patch set_ann ann_of]. apply leaf_esim; try reflexivity; try discriminate.
+      * intros _. cbn.
+        match goal with E1 : esim (EStr a1 s1) ?c1, E2 : esim (EStr a2 s2) ?c2 |- _ =>
+          rewrite (es_str _ _ _ _ _ _ (proj1 E1) eq_refl), (es_str _ _ _ _ _ _ (proj1 E2) eq_refl) end. reflexivity.
+      * eapply esim_sem_eq; [|exact Hdef]. intros ctx s.
+        pose proof (fold_string_concat_sound fe cfg env a a1 a2 s1 s2 ctx s) as E.
+        cbn [fold_v int_lit str_lit fst patch set_ann ann_of] in E. exact E.
+  - (* array: the array rule never fires on a tree without foldable array literals *)
+    unfold fold_array. destruct (is_nil_list cs) eqn:N; [exact Hdef|].
+    assert (F : forall p, forallb p cs = true -> (forall c' c, esim c' c -> p c' = true -> p c = true) -> forallb p es = true).
+    { intros p Hp Hi. revert Hp. apply forallb_transfer. eapply Forall2_weaken; [|exact H]. intros c' c E. apply Hi; exact E. }
+    cbn [foldable_array] in Gf.
+    assert (Nn : is_nil_list es = false) by (destruct cs, es; try discriminate; try reflexivity; inversion H).
+    rewrite Nn in Gf. cbn [negb andb] in Gf. apply orb_false_iff in Gf. destruct Gf as [Gi Gs].
+    destruct (all_ints cs) as [zs|] eqn:Ai.
+    + rewrite (F intlike (all_ints_intlike _ _ Ai)) in Gi; [discriminate|]. intros c' c E. apply (es_int _ _ _ _ _ _ (proj1 E)).
+    + destruct (all_strs cs) as [ss|] eqn:As; [|exact Hdef].
+      rewrite (F strlike (all_strs_strlike _ _ As)) in Gs; [discriminate|]. intros c' c E. apply (es_str _ _ _ _ _ _ (proj1 E)).
+Qed.
+
+Lemma fold_walk_esim e : good cn e = true -> esim (fst (map_post (fold_v (f_pow fe)) e)) e.
+Proof.
+  intros G. apply (map_post_esim _ (fun _ => True)); [|exact G|apply Forall_forall; auto].
+  intros n' n R Gn _. apply fold_local; assumption.
+Qed.
+
+Lemma iter_pass_esim (f : visitor) :
+  (forall e, good cn e = true -> esim (fst (map_post f e)) e) ->
+  forall n e e', good cn e = true -> iter_pass f n e = OOk e' -> esim e' e.
+Proof.
+  intros Hf. induction n as [|n IH]; intros e e' G H; cbn [iter_pass] in H.
+  - inversion H; subst. apply esim_refl.
+  - pose proof (Hf e G) as E1. destruct (map_post f e) as [e1 [ap er]]. cbn [fst] in E1.
+    destruct er; [discriminate|]. destruct ap.
+    + eapply esim_trans; [|exact E1]. apply IH; [|exact H]. apply (es_good _ _ _ _ _ _ (proj1 E1)); exact G.
+    + inversion H; subst. exact E1.
+Qed.
+
+(* ---------------- const_expr ---------------- *)
+Definition is_budget (r : result) : Prop := exists l s, r = Stop EBudget l s.
+
+Lemma budget_sim ro ru : is_budget ru -> ro ≲ ru.
+Proof. intros (l & s & ->). left. reflexivity. Qed.
+
+Lemma rbind_budget r k : is_budget r -> is_budget (rbind r k).
+Proof. intros (l & s & ->). exists l, s. reflexivity. Qed.
+
+Definition evals_to (e : expr) (v : value) : Prop := forall ctx s, ev ctx e s = Done v s.
+
+Lemma const_args_vals es vs : const_args es = Some vs -> forallb lit_child_ok es = true -> Forall2 evals_to es vs.
+Proof.
+  revert vs. induction es as [|x r IH]; intros vs H L; cbn [const_args] in H.
+  - inversion H. constructor.
+  - cbn [forallb] in L. apply andb_prop in L. destruct L as [Lx Lr].
+    destruct (const_args r) as [vr|]; [|destruct x; discriminate].
+    destruct x; try discriminate; inversion H; subst; constructor; try (apply IH; auto; fail); intros ctx st; try reflexivity.
+    unfold lit_child_ok in Lx. cbn [is_lit negb orb] in Lx. apply kint_eq in Lx. cbn in Lx.
+    rewrite ev_int, (int_const_int a KInt z Lx eq_refl). reflexivity.
+Qed.
+
+Lemma ev_list_inv ctx es' es : Forall2 esim es' es -> forall vs, Forall2 evals_to es' vs ->
+  forall s' s K, ssim cn s' s ->
+  is_budget (ev_list fe cfg env ctx es s K) \/ exists s1, ssim cn s' s1 /\ ev_list fe cfg env ctx es s K = K vs s1.
+Proof.
+  induction 1 as [|x' x r' r Hx Hr IH]; intros vs Hv s' s K S.
+  - inversion Hv; subst. right. exists s. split; [exact S|reflexivity].
+  - inversion Hv as [|? v ? vr Hxv Hrv]; subst. rewrite ev_list_cons.
+    pose proof (es_sem _ _ _ _ _ _ (proj1 Hx) ctx s' s S) as Hs. rewrite Hxv in Hs.
+    apply rsim_Done_inv in Hs. destruct Hs as [(l & s0 & E)|(s1 & E & S1)]; rewrite E.
+    + left. exists l, s0. reflexivity.
+    + cbn [rbind]. apply (IH vr Hrv s' s1 (fun vs s2 => K (v :: vs) s2) S1).
+Qed.
+
+Lemma ssim_log_const s' s1 name vs : is_const_fn cn name = true -> ssim cn s' s1 -> ssim cn s' (log_call s1 name vs).
+Proof.
+  intros C [Sm St]. split; [exact Sm|]. unfold log_call. cbn [r_trace]. rewrite strip_app, St.
+  unfold strip at 3. cbn [filter fst]. unfold is_const_fn in C. rewrite C. cbn. rewrite app_nil_r. reflexivity.
+Qed.
+
+Definition Site_cx (n : expr) : Prop :=
+  forall a name args fast, n = EFunction a name args fast -> is_const_fn cn name = true ->
+    fetch_fn fe env name = Ok name /\ (fast = true -> exists sg, fn_sig fe name = Some sg /\ s_fast sg = true).
+
+Lemma const_expr_local n' n : rel1 n' n -> good cn n = true -> Site_cx n -> esim (fst (const_expr_v fe env cn n')) n.
+Proof.
+  intros Hrel G HS. pose proof (rel1_esim _ _ _ _ _ _ Hrel) as Hdef. destruct Hrel as (cs & -> & H).
+  prep_children H n; cbn [rebuild] in *; cbn [const_expr_v]; try exact Hdef.
+  destruct (is_const_fn cn name) eqn:C; [|exact Hdef].
+  destruct (const_args cs) as [vs|] eqn:A; [|exact Hdef].
+  destruct (const_call fe env name vs) as [v|er] eqn:Call; [|exact Hdef].
+  cbn [fst patch set_ann ann_of].
+  pose proof (es_good _ _ _ _ _ _ (proj1 Hdef) G) as G'.
+  assert (L : forallb lit_child_ok cs = true).
+  { apply good_inv in G'. destruct G' as (Gn & _ & _). unfold good_node in Gn. apply andb_prop in Gn. destruct Gn as [Gn _].
+    apply andb_prop in Gn. destruct Gn as [_ Gx]. cbn [cx_node] in Gx. rewrite C in Gx. exact Gx. }
+  pose proof (const_args_vals _ _ A L) as Hv.
+  destruct (HS a name args fast eq_refl C) as [Hfetch Hfast].
+  apply leaf_esim; try reflexivity; try discriminate.
+  intros ctx s' s S. rewrite ev_const, ev_function.
+  destruct (ev_list_inv ctx _ _ H _ Hv s' s
+    (fun vs0 s1 => lift (aloc a) s1 (fetch_fn fe env name) (fun id => do_call fe (aloc a) fast id env vs0 s1)) S) as [B|(s1 & S1 & E)];
+    [apply budget_sim; exact B|]. rewrite E, Hfetch. cbn [lift].
+  unfold const_call in Call. unfold do_call. destruct (fn_sig fe name) as [sg|] eqn:Sg; [|discriminate].
+  destruct (args_ok (s_ins sg) (s_variadic sg) vs) eqn:Ok; [|discriminate].
+  destruct (fn_run fe name env vs) as [v0|] eqn:Run; [|discriminate].
+  destruct (s_nout sg =? 0) eqn:N; [discriminate|]. inversion Call; subst v0.
+  destruct fast.
+  - destruct (Hfast eq_refl) as (sg' & Sg' & F). rewrite Sg in Sg'. inversion Sg'; subst sg'. rewrite F.
+    apply rsim_Done. apply ssim_log_const; assumption.
+  - apply rsim_Done. apply ssim_log_const; assumption.
 Qed.
